@@ -350,7 +350,7 @@ def generate(rng, tier):
     out += fam_two_columns(thorough)
     out += fam_self(thorough)
     out += fam_chain(thorough)
-    ngraphs = 330 if not thorough else 3000
+    ngraphs = 800 if not thorough else 6000
     k = 0
     for g in range(ngraphs):
         classes, ends = random_graph(rng)
@@ -478,12 +478,23 @@ def run_one(c, mods):
             conn.close()
         except Exception:
             pass
+        # let the generated classes die: the registry would keep every class of every case alive
+        # (and gc.collect() above would get slower with every case)
+        from sqlobject import classregistry
+        classregistry.MasterRegistry.registries.pop(reg, None)
+        # ... and DBConnection.__init__ leaves a bound method of every connection in the default
+        # registry's callback list
+        cbs = classregistry.registry(conn.registry).genericCallbacks
+        cbs[:] = [cb for cb in cbs if getattr(cb[0], '__self__', None) is not conn]
 
 
 def run_impl(cases):
     from sqlobject import SQLObject, ForeignKey, RelatedJoin, SQLObjectNotFound
     from sqlobject.sqlite.sqliteconnection import SQLiteConnection
     mods = (SQLObject, ForeignKey, RelatedJoin, SQLObjectNotFound, SQLiteConnection)
+    import gc
+    gc.collect()
+    gc.freeze()        # the interpreter's and SQLObject's own objects need not be scanned per case
     out = []
     for c in cases:
         try:
